@@ -247,7 +247,7 @@ def c12_post(rundir, merged):
 
 
 def c12_vac(res, tier):
-    need = ["C12:truncate", "C12:bitflip", "C12:count", "C12:time", "C12:footer", "C12:env-read", "C12:count2", "C12:typeidx-x-typecnt", "C12:splice"]
+    need = ["C12:truncate", "C12:bitflip", "C12:count", "C12:time", "C12:footer", "C12:env-read", "C12:count2", "C12:typeidx-x-typecnt", "C12:splice", "C12:degenerate"]
     missing = [c for c in need if not any(k.startswith(c) for k in res["classes"])]
     if missing:
         return "operator classes never exercised: " + ", ".join(missing)
@@ -267,7 +267,7 @@ CHECKS["C12"] = {
     "post": c12_post,
     "level": "fault_enumeration", "engine": "E4",
     "technique": "deviation-bounded exhaustive fault enumeration: every single deviation of a stated operator set (and stated pairs) applied to well-formed seeds, each loaded into the real library under ASan+UBSan with a per-input report hook and watchdog; differential determinism check across auto-var-init builds",
-    "rule": "seeds (10 shipped + 7 synthetic quick; all shipped + 11 synthetic thorough) x operators: truncate to every length; every byte x {8 bit flips, 00, ff}; every header count x 13 values with/without padding; version/magic bytes; every type-index byte x 4; every ttinfo field x boundary values; every 8-byte time x 14 values; abbreviation NULs; footer := each string of the C16 corpus + stress footers; header/body splices between all seed pairs; data-source deviations (k-th Read short/empty/1 byte for k<40, failing Skip, 64 KiB Version); depth 2: pairs of count edits, time x footer, type-index x typecnt, truncate x count; inputs whose declared data length exceeds 64 MiB (512 MiB) are outside the property's precondition and skipped; class = operator x loads/rejected",
+    "rule": "seeds (10 shipped + 7 synthetic quick; all shipped + 11 synthetic thorough) x operators: truncate to every length; every byte x {8 bit flips, 00, ff}; every header count x 13 values with/without padding; version/magic bytes; every type-index byte x 4; every ttinfo field x boundary values; every 8-byte time x 14 values; abbreviation NULs; footer := each string of the C16 corpus + stress footers; header/body splices between all seed pairs; data-source deviations (k-th Read short/empty/1 byte for k<40, failing Skip, 64 KiB Version); depth 2: pairs of count edits, time x footer, type-index x typecnt, truncate x count; structure-aware degenerate files: the complete product of header counts (timecnt 0-2, typecnt {0,1,2,255,256,257}, charcnt {0,1,4,8}, indicator counts {0, typecnt, typecnt+1}, leapcnt 0/1, 3 type-index patterns) under 5 version-1 headers and 4 footers, each with a body of exactly the declared size; inputs whose declared data length exceeds 64 MiB (512 MiB) are outside the property's precondition and skipped; class = operator x loads/rejected",
     "design_ref": "DESIGN.md 3/C12",
     "text": "Each mutant is loaded twice under different names in the sanitizer build (UBSan reports captured per input, ASan fatal, 20 s no-progress watchdog); a failed load must leave UTC; on a loaded zone the totality panel (extreme lookups both ways, transition chains, format) must run clean and give the same answers both times; per-case outcome hashes must agree with two uninstrumented clang builds that pre-fill automatic variables differently.",
     "level_note": "Trusted base: ASan/UBSan runtimes, the watchdog, the reference TZif reader used only to describe inputs (facts for known-finding predicates). Bounds: one deviation per input (pairs only for the listed interacting operators); no claim for inputs that need three simultaneous deviations.",
@@ -282,13 +282,13 @@ CHECKS["C07"] = mk_simple("C07", "text_conf", "format() then parse() returns the
     "The composition law parse(fmt, format(fmt, t, fs, tz), any_zone) == (true, t, fs) is evaluated on the real library over the complete product (quick: a covering subset of format combinations in which every part value and every part pair with the date form occurs); no reference model needed.",
     ["C07:negative-year", "C07:many-digit-year", "C07:plain-year", "C07:all-subseconds", "C07:percent-s"], TEXT_NOTE, min_eval=1000000)
 CHECKS["C08"] = mk_simple("C08", "text_conf", "format() renders exactly what lookup() reports; no UB",
-    "ALL token sequences of length <= 3 (4) over a 37-token alphabet (%, E, O, :, *, digits 0,1,4,9,15,18,19,1024,1025, every library-defined conversion letter, a, j, c, x, space, a UTF-8 byte pair, NUL) = 52,060 (1.9 M) format strings x a panel of 14 (zone, instant, femtoseconds) triples taking every field to its extreme; plus every documented specifier alone and in RFC3339/RFC1123 combinations, strftime-delegated specifiers with flags/modifiers, on every zone x probe; ASan+UBSan build; class = rendered / malformed (safety only) / C-library run beyond the documented buffer growth limit",
+    "ALL token sequences of length <= 3 (4) over a 37-token alphabet (%, E, O, :, *, digits 0,1,4,9,15,18,19,1024,1025, every library-defined conversion letter, a, j, c, x, space, a UTF-8 byte pair, NUL) = 52,060 (1.9 M) format strings x a panel of 14 (zone, instant, femtoseconds) triples taking every field to its extreme; plus ALL sequences of 2-3 units over a 55-unit alphabet (whole specifiers of both kinds, %% and %%%%, literals that look like conversion letters, dangling prefixes) x 4 (14) panel triples; plus every documented specifier alone and in RFC3339/RFC1123 combinations, strftime-delegated specifiers with flags/modifiers, on every zone x probe; ASan+UBSan build; class = rendered / malformed (safety only) / C-library run beyond the documented buffer growth limit",
     "Safety for every string (sanitizers, determinism); for well-formed strings the output must equal the reference rendering: library-defined specifiers rendered from lookup()'s fields by the documentation, every other run rendered by glibc strftime on a tm built independently from the same fields.",
     ["C08:rendered", "C08:malformed"], TEXT_NOTE, min_eval=500000)
 CHECKS["C09"] = mk_simple("C09", "text_conf", "parse() accepts exactly well-formed in-range input",
-    "(a) complete product of field boundary values (11 years incl. INT64 limits and the first/last representable, months, days 1/28..31, hours, minutes, seconds 0/59/60, 11 offset spellings, 6 fraction lengths) through an RFC3339 format; every documented specifier alone with its accept/reject boundary inputs, with surrounding blanks, literals and other zones; (b) EVERY single edit (delete, replace, insert over 12 symbols) of 19 accepted (format, input) pairs, parsed in three zones; (c) zone interaction: skipped/repeated/shifted-year civil times and the first/last representable second of fixed zones, with and without offsets; (d) all format strings of <= 2 (3) tokens of C08's alphabet x 40 inputs (safety; outcome compared where the reference has an opinion); class = generator x accept/reject as decided by the reference",
+    "(a) complete product of field boundary values (11 years incl. INT64 limits and the first/last representable, months, days 1/28..31, hours, minutes, seconds 0/59/60, 11 offset spellings, 6 fraction lengths) through an RFC3339 format; every documented specifier alone with its accept/reject boundary inputs, with surrounding blanks, literals and other zones; (b) EVERY single edit (delete, replace, insert over 12 symbols) of 19 accepted (format, input) pairs, parsed in three zones; (c) zone interaction: skipped/repeated/shifted-year civil times and the first/last representable second of fixed zones, with and without offsets; for every zone the civil seconds displayed around each recorded transition, their ':60' spelling and +-30 min; (d) all format strings of <= 2 (3) tokens of C08's alphabet x 40 inputs (safety; outcome compared where the reference has an opinion); class = generator x accept/reject as decided by the reference",
     "Accept/reject and the returned instant/femtoseconds must equal the reference matcher (documented semantics only; behaviours the documentation leaves open are don't-cares and checked for safety only).",
-    ["C09:boundary-product:accept", "C09:boundary-product:reject", "C09:specifier-boundaries:accept", "C09:specifier-boundaries:reject", "C09:edit-replace:reject", "C09:edit-delete:accept", "C09:zone-interaction:accept", "C09:zone-interaction:reject", "C09:safety-panel"],
+    ["C09:boundary-product:accept", "C09:boundary-product:reject", "C09:specifier-boundaries:accept", "C09:specifier-boundaries:reject", "C09:edit-replace:reject", "C09:edit-delete:accept", "C09:zone-interaction:accept", "C09:zone-interaction:reject", "C09:zone-transition:accept", "C09:zone-transition-leap60:accept", "C09:safety-panel"],
     TEXT_NOTE, min_eval=150000)
 CHECKS["C18"] = mk_simple("C18", "subsecond", "sub-second time points floor toward the past",
     "duration panel {int64 ns/us/ms/(1/3 s)/fs; int64 s; int32 min, h; int16 s, min; int8 s, min}: EVERY value of the int8/int16 representations; [-1e5,1e5] and both limits -+1000 for int32; for int64 sub-second reps whole seconds {-2,-1,0,1,+-59,+-60,+-3599..3601,+-86400,+-2^31, limits -+2..4} x remainders {0,1,2,ratio/2-1..+1,ratio-2,ratio-1,10^k-1,10^k,10^k+1} on both sides of zero; x zones {UTC, fixed -30 s, fixed +5:45}; on each: split_seconds, lookup, convert, format %E*S, %E*f, %E#S/%E#f for # in {0,1,2,3,6,9,12,14,15,16,18}; parse (via %s and via %Y-%m-%d %H:%M:%S) into {int64/int32/int16/int8 s, int8/int16/int32/int64 min, int32/int64 h, int64 days} for every second within +-2 h of the epoch and within +-(2 units+2) of both limits of each target; class = duration x sign x multiple/non-multiple x in/out of range",
